@@ -712,4 +712,39 @@ def verifySig (H : Nat → Bytes → Bytes) (pkVerify : Bytes → Nat) (s : Sig)
   | none => false
   | some input => checkIntegrity pkVerify s pp (hashCompute H s.hashalgo input)
 
+/-! ### the layout of a signature packet body: which octets are hashed -/
+
+/-- the fields of a signature packet body that enter the hash input and the dispatch
+    (V3: `3, 5, type, time(4), key id(8), pkalgo, hashalgo, left(2), MPIs`;
+     V4/V5: `ver, type, pkalgo, hashalgo, len(2), hashed subpackets, len(2), unhashed subpackets, left(2), MPIs`) -/
+def sigOfBody (b : Bytes) : Option Sig :=
+  let v := b.headD 0
+  if v = 3 then
+    if b.length < 19 then none
+    else some { version := 3, type := b.getD 2 0, pkalgo := b.getD 15 0, hashalgo := b.getD 16 0,
+                creation := fromBE ((b.drop 3).take 4), left := (b.drop 17).take 2 }
+  else if v = 4 ∨ v = 5 then
+    let hl := b.getD 4 0 * 256 + b.getD 5 0
+    if b.length < 6 + hl then none
+    else some { version := v, type := b.getD 1 0, pkalgo := b.getD 2 0, hashalgo := b.getD 3 0, creation := 0,
+                hspd := (b.drop 6).take hl }
+  else none
+
+/-- is the octet at `pos` of a signature packet body part of what is hashed? -/
+def sigOctetHashed (b : Bytes) (pos : Nat) : Bool :=
+  let v := b.headD 0
+  if v = 3 then 2 ≤ pos ∧ pos < 7
+  else if v = 4 ∨ v = 5 then pos < 6 + (b.getD 4 0 * 256 + b.getD 5 0)
+  else false
+
+/-- do two signature packet bodies lead to the same hash input for a target? (`none`: one of them
+    has no layout or is refused before hashing) -/
+def sigFlipSameInput (b1 b2 : Bytes) (t : Target) : Option Bool :=
+  match sigOfBody b1, sigOfBody b2 with
+  | some s1, some s2 =>
+    match verifyHashInput s1 t, verifyHashInput s2 t with
+    | some i1, some i2 => some (i1 = i2)
+    | _, _ => none
+  | _, _ => none
+
 end Tmcg.PgpMsg
